@@ -189,7 +189,7 @@ pub fn run(ctx: &Ctx) -> CheckOutput {
         }
     }
     for kind in [Kind::Cti, Kind::Net, Kind::CenterOfGravity] {
-        for n in if quick { vec![3usize, 5, 8, 9, 13] } else { (3..=16).chain([20, 33]).collect() } {
+        for n in if quick { vec![3usize, 5, 8, 9, 13, 17, 24] } else { (3..=18).chain([20, 24, 33, 40]).collect() } {
             let spec = Spec::un(kind, n, Spec::echo());
             let phases = if quick { 3 } else { 4 };
             jobs.push(Box::new(move || {
